@@ -10,6 +10,7 @@ import (
 
 	"github.com/ostafen/clover/v2/document"
 	"github.com/ostafen/clover/v2/query"
+	"verif/harness/core"
 
 	"verif/harness/model"
 	"verif/harness/mon"
@@ -448,4 +449,86 @@ func (s *S) AuditPhysical(after string) {
 func (s *S) Audit(after string) {
 	s.AuditBehaviour()
 	s.AuditPhysical(after)
+}
+
+// InsertAliased inserts the SAME *Document several times in one batch (no _id supplied): the second occurrence
+// carries the id generated for the first, so the batch must be rejected as a whole.
+func (s *S) InsertAliased(coll string, doc map[string]any, times int) {
+	n := fmt.Sprintf("Insert(%q, the same *Document x%d, no _id)", coll, times)
+	d := model.NewDoc(doc)
+	batch := make([]*document.Document, times)
+	for i := range batch {
+		batch[i] = d
+	}
+	got, err := s.run(n, false, func() error { return s.h.DB.Insert(coll, batch...) })
+	if s.coll(coll) == nil {
+		s.expect(n, []string{ECollNo}, got, err)
+		return
+	}
+	s.expect(n, []string{EDup}, got, err)
+}
+
+// RunOversized: one operation beyond badger's default transaction size that fails at its very end must leave no
+// trace on any backend (a store adapter that flushes behind the scenes would keep the first part).
+func RunOversized(c *core.Ctx) {
+	r := c.R
+	backend := []string{BadgerShip, BBolt, BadgerShip}[c.Case%3]
+	h, err := Open(c, backend, "")
+	if err != nil {
+		c.Violate("open-error", "opening %s failed: %v", backend, err)
+		return
+	}
+	defer h.Destroy()
+	s := NewS(c, h)
+	s.CreateCollection("big", nil)
+	s.CreateIndex("big", "a")
+	base := make([]map[string]any, 13)
+	for i := range base {
+		base[i] = map[string]any{"_id": r.UUID(), "a": int64(i % 5)}
+	}
+	s.Insert("big", base, false)
+	if s.failed {
+		return
+	}
+	blob := strings.Repeat("x", 900<<10)
+	// insert: the last document repeats the first id
+	docs := make([]*document.Document, 16)
+	for i := range docs {
+		d := document.NewDocument()
+		d.Set("_id", r.UUID())
+		d.Set("a", int64(i))
+		d.Set("blob", blob)
+		docs[i] = d
+	}
+	docs[15].Set("_id", docs[0].ObjectId())
+	name := "Insert(16 x 900 KB, last one a duplicate)"
+	got, e := s.run(name, false, func() error { return s.h.DB.Insert("big", docs...) })
+	s.expect(name, []string{EDup, EAny}, got, e)
+	// bulk update adding the payload to every document, the last result invalid
+	ids := s.coll("big").IDs()
+	last := ids[len(ids)-1]
+	name = "UpdateFunc(adds 900 KB to each of 13 documents, last result invalid)"
+	got, e = s.run(name, false, func() error {
+		return s.h.DB.UpdateFunc(query.NewQuery("big"), func(d *document.Document) *document.Document {
+			n := d.Copy()
+			n.Set("blob", blob)
+			if d.ObjectId() == last {
+				n.Set("_expiresAt", "never")
+			}
+			return n
+		})
+	})
+	s.expect(name, []string{EAny}, got, e)
+	if s.failed {
+		return
+	}
+	if !s.CompareCollection("big", "oversized:partial-effect", "oversized operations that failed") {
+		return
+	}
+	s.Derived(&model.Query{Coll: "big"})
+	s.Audit("oversized operations that failed")
+	if !s.failed {
+		c.Cell("oversized|%s", backend)
+		c.Sample(map[string]any{"backend": backend, "scenario": "16 x 900 KB insert with a duplicate last, bulk update with an invalid last result"})
+	}
 }
